@@ -85,7 +85,7 @@ class Unit:
         self.raw(t, trusted=tr)
 
     # ------------------------------------------------------------------ rewrites
-    def common_rewrites(self, text, ctx_ok_or=(), keep_ctx=False):
+    def common_rewrites(self, text, ctx_ok_or=(), keep_ctx=False, ctx_sites=()):
         """the fixed list of DESIGN 2.1; every rule preserves the number of newlines."""
         text, n = replace_macro_calls(text, 'bail', 'return Err(VErr)')
         self.drop('bail!(..) -> return Err(VErr)', n)
@@ -98,9 +98,10 @@ class Unit:
             def repl(inner, meth=meth):
                 cnt[0] += 1
                 return ''
-            if ctx_ok_or:
+            sites = [(x, '.ok_or(VErr)') for x in ctx_ok_or] + list(ctx_sites)
+            if sites:
                 # per-site: sites are identified by the text preceding the call (regex)
-                for site_re in ctx_ok_or:
+                for site_re, site_rep in sites:
                     pat = re.compile(r'(' + site_re + r')\s*\.\s*' + meth + r'\s*\(')
                     while True:
                         mask = code_mask(text)
@@ -110,8 +111,8 @@ class Unit:
                         op = m.end() - 1
                         cl = match_close(mask, op)
                         nl = '\n' * text[m.end(1):cl + 1].count('\n')
-                        text = text[:m.end(1)] + '.ok_or(VErr)' + nl + text[cl + 1:]
-                        self.drop('Option.' + meth + '(..) -> .ok_or(VErr)')
+                        text = text[:m.end(1)] + site_rep + nl + text[cl + 1:]
+                        self.drop('.' + meth + '(..) -> ' + site_rep)
             text, n = remove_method_calls(text, meth)
             self.drop('Result.' + meth + '(..) removed', n)
         # Result<T> -> Result<T, VErr>
@@ -199,7 +200,8 @@ class Unit:
            requires=(), ensures=(), loops=None, decreases=None, proof_before=(), rewrites=(),
            ctx_ok_or=(), external_body=False, props=None, safety_props=None, which=0,
            canary=False, rename=None, mode_exec=True, opens_invariants=None, no_unwind=False,
-           sig_rewrites=(), header_attrs=(), assume_termination=False):
+           sig_rewrites=(), header_attrs=(), assume_termination=False, container=None, bare=False,
+           no_body=False, ctx_sites=()):
         """cut a function from /repo and splice a contract in.
 
         key: 'Type::name' or 'name'.  impl: regex of the impl header type (default = Type from key).
@@ -213,16 +215,22 @@ class Unit:
         name = key.split('::')[-1]
         within = None
         ty = None
-        if '::' in key:
+        if container:
+            r = s.cut_item(container[0], container[1])
+            within = (r['open'] + 1, r['close'])
+            bare = True
+        elif '::' in key:
             ty = key.split('::')[0]
             r = s.cut_item('impl', impl or re.escape(ty))
             within = (r['open'] + 1, r['close'])
             if impl_header is None:
                 impl_header = re.sub(r'\s+', ' ', r['header']).strip()
+        if bare:
+            ty = None
         if inside_fn:
             outer = s.cut_fn(inside_fn, within=within)
             within = (outer['open'] + 1, outer['close'])
-        f = s.cut_fn(name, within=within, which=which)
+        f = s.cut_decl(name, within=within) if no_body else s.cut_fn(name, within=within, which=which)
         sig, body = f['sig'], f['body']
         sig_start_line = f['start_line']
         body_start_line = s.line_of(f['open'])
@@ -237,12 +245,12 @@ class Unit:
             if n == 0:
                 raise CutError(f'{relpath}: fn {key}: signature rewrite /{pat}/ no longer matches')
             self.drop(f'fn {key} signature: /{pat}/ -> {rep!r}', n)
-        if not sig.startswith('pub'):
+        if not sig.startswith('pub') and not container:
             sig = 'pub ' + sig
         sig = self._name_return(sig, ret)
 
         # ---- body
-        body = self.common_rewrites(body, ctx_ok_or=ctx_ok_or)
+        body = self.common_rewrites(body, ctx_ok_or=ctx_ok_or, ctx_sites=ctx_sites)
         for pat, rep in rewrites:
             body, n = re.subn(pat, rep, body)
             if n == 0:
@@ -255,7 +263,7 @@ class Unit:
         fnkey = key
         info = dict(file=relpath, start_line=sig_start_line, end_line=f['end_line'], props=props,
                     safety_props=list(safety_props) if safety_props is not None else sorted(set(props + ['C16'])),
-                    clauses=[], external_body=external_body, loops=0, name=rename or name)
+                    clauses=[], external_body=(external_body or no_body), loops=0, name=rename or name)
         self.fns[fnkey] = info
 
         def reg(kind, c):
@@ -363,6 +371,19 @@ class Unit:
         self.segments.append((f'// <<< canary for {fnkey}\n', None))
         self.segments.append((t, dict(file=None, fn='canary:' + fnkey, line=None)))
         self.canaries.append(('canary:' + fnkey, cname))
+
+    def canary_raw(self, key, text):
+        """hand-written must-fail function (vacuity guard)"""
+        m = re.search(r'\bfn\s+([A-Za-z0-9_]+)', text)
+        self.segments.append((f'// <<< canary {key}\n', None))
+        self.segments.append((text.strip('\n') + '\n', dict(file=None, fn='canary:' + key, line=None)))
+        self.canaries.append(('canary:' + key, m.group(1)))
+
+    def open_block(self, header):
+        self.segments.append((header.rstrip() + '\n', None))
+
+    def close_block(self):
+        self.segments.append(('}\n', None))
 
     def lemma(self, label, text, props=None):
         """hand-written proof fn (a lemma over the contracts); counted as one obligation."""
